@@ -32,6 +32,13 @@ Proof. simpl. unfold Z.pow_pos. simpl. reflexivity. Qed.
 Lemma two_pow_53 : bpow radix2 (-53) = / 9007199254740992.
 Proof. simpl. unfold Z.pow_pos. simpl. reflexivity. Qed.
 
+Lemma ten_pow_18 : bpow radix10 (-18) = / 1000000000000000000.
+Proof.
+change (bpow radix10 (-18)) with (/ IZR (Z.pow_pos radix10 18)).
+replace (Z.pow_pos radix10 18) with 1000000000000000000%Z by (vm_compute; reflexivity).
+reflexivity.
+Qed.
+
 (* the relative form: a decimal within 5e-19*|x| of x rounds back to x *)
 Lemma roundtrip_pos : forall x D, F64 x -> 0 < x ->
   Rabs (D - x) <= x * (5 / 10000000000000000000) -> rnd64 D = x.
@@ -89,8 +96,7 @@ destruct (Req_dec x 0) as [Hx|Hx].
   specialize (He Hx). destruct He as [He _].
   replace (e - 1 - 18)%Z with ((e - 1) + (-18))%Z by lia.
   rewrite bpow_plus.
-  replace (bpow radix10 (-18)) with (/ 1000000000000000000).
-  2:{ simpl. unfold Z.pow_pos. simpl. reflexivity. }
+  rewrite ten_pow_18.
   assert (0 < bpow radix10 (e - 1)) by apply bpow_gt_0.
   lra.
 Qed.
@@ -122,7 +128,7 @@ split.
   assert (E : e10 1 = 0%Z).
   { unfold e10. rewrite (mag_unique radix10 1 1). reflexivity.
     simpl. rewrite Rabs_pos_eq by lra. unfold Z.pow_pos; simpl. lra. }
-  rewrite E. simpl. unfold Z.pow_pos; simpl. lra.
+  rewrite E. change (0 - 18)%Z with (-18)%Z. rewrite ten_pow_18. lra.
 Qed.
 
 (* ------------------------------------------------------------------ variances *)
@@ -131,7 +137,7 @@ Qed.
    underflow term |e| <= eta; eta = 0 when the product is in the normal range).
    save:  s = fl(sqrt v) ;  load:  r = fl(s * s). *)
 Theorem variance_roundtrip : forall u eta v d1 d2 e,
-  0 <= v -> 0 <= u -> Rabs d1 <= u -> Rabs d2 <= u -> Rabs e <= eta ->
+  0 <= v -> 0 <= u <= 1 -> Rabs d1 <= u -> Rabs d2 <= u -> Rabs e <= eta ->
   let s := sqrt v * (1 + d1) in
   let r := s * s * (1 + d2) + e in
   Rabs (r - v) <= v * (3 * u + 3 * u * u + u * u * u) + eta.
@@ -139,39 +145,34 @@ Proof.
 intros u eta v d1 d2 e Hv Hu H1 H2 He s r.
 assert (Hs : sqrt v * sqrt v = v) by now apply sqrt_sqrt.
 unfold r, s.
-replace (sqrt v * (1 + d1) * (sqrt v * (1 + d1)) * (1 + d2) + e - v)
-  with ((sqrt v * sqrt v) * ((1 + d1) * (1 + d1) * (1 + d2) - 1) + e) by ring.
-rewrite Hs.
+set (q := sqrt v) in *.
+assert (E : q * (1 + d1) * (q * (1 + d1)) * (1 + d2) + e - v
+            = v * ((1 + d1) * (1 + d1) * (1 + d2) - 1) + e).
+{ rewrite <- Hs. ring. }
+rewrite E.
 eapply Rle_trans. apply Rabs_triang.
 apply Rplus_le_compat; trivial.
 rewrite Rabs_mult, (Rabs_pos_eq v) by trivial.
 apply Rmult_le_compat_l; trivial.
 apply Rabs_le_inv in H1. apply Rabs_le_inv in H2.
 apply Rabs_le.
-assert (0 <= u * u) by nra.
-assert (A : -u*u - 2*u <= (1+d1)*(1+d1) - 1 <= 2*u + u*u) by nra.
+set (a := 1 + d1) in *. set (b := 1 + d2) in *.
+assert (Ha : 1 - u <= a <= 1 + u) by (unfold a; lra).
+assert (Hb : 1 - u <= b <= 1 + u) by (unfold b; lra).
+assert (Ha2 : (1 - u) * (1 - u) <= a * a <= (1 + u) * (1 + u)).
+{ split.
+  - assert (0 <= (a - (1 - u)) * (a + (1 - u))) by (apply Rmult_le_pos; lra). lra.
+  - assert (0 <= ((1 + u) - a) * ((1 + u) + a)) by (apply Rmult_le_pos; lra). lra. }
+assert (0 <= (1 - u) * (1 - u)) by (apply Rmult_le_pos; lra).
 split.
-- (* lower: (1-u)^3 - 1 >= -(3u+3u^2+u^3) when... *)
-  destruct (Rle_dec u 1) as [Hu1|Hu1].
-  + assert (0 <= (1+d1)*(1+d1)) by nra.
-    assert ((1+d1)*(1+d1) >= (1-u)*(1-u)) by nra.
-    assert (0 <= 1 + d2) by lra.
-    assert ((1 + d1) * (1 + d1) * (1 + d2) >= (1-u)*(1-u)*(1-u)) by nra.
-    nra.
-  + assert (0 <= (1+d1)*(1+d1)) by nra.
-    assert ((1+d1)*(1+d1) <= (1+u)*(1+u)) by nra.
-    assert (Rabs (1 + d2) <= 1 + u). { apply Rabs_le. lra. }
-    assert (Rabs ((1 + d1) * (1 + d1) * (1 + d2)) <= (1+u)*(1+u)*(1+u)).
-    { rewrite Rabs_mult. rewrite (Rabs_pos_eq ((1+d1)*(1+d1))) by trivial.
-      apply Rmult_le_compat; trivial. apply Rabs_pos. }
-    apply Rabs_le_inv in H5. nra.
-- assert (0 <= (1+d1)*(1+d1)) by nra.
-  assert ((1+d1)*(1+d1) <= (1+u)*(1+u)) by nra.
-  assert (Rabs (1 + d2) <= 1 + u). { apply Rabs_le. lra. }
-  assert (Rabs ((1 + d1) * (1 + d1) * (1 + d2)) <= (1+u)*(1+u)*(1+u)).
-  { rewrite Rabs_mult. rewrite (Rabs_pos_eq ((1+d1)*(1+d1))) by trivial.
-    apply Rmult_le_compat; trivial. apply Rabs_pos. }
-  apply Rabs_le_inv in H4. nra.
+- assert ((1 - u) * (1 - u) * (1 - u) <= a * a * b).
+  { apply Rmult_le_compat; lra. }
+  assert (0 <= u * u) by (apply Rmult_le_pos; lra).
+  assert (0 <= u * u * u) by (apply Rmult_le_pos; lra).
+  lra.
+- assert (a * a * b <= (1 + u) * (1 + u) * (1 + u)).
+  { apply Rmult_le_compat; lra. }
+  lra.
 Qed.
 
 (* with u = 2^-53 the bound is below 3.0000000000000005 * 2^-53 * v, i.e. strictly
@@ -183,7 +184,9 @@ Corollary variance_roundtrip_ulps : forall v d1 d2,
   Rabs (r - v) <= (3 + / 1000000000000000) * ulp radix2 fexp64 v.
 Proof.
 intros v d1 d2 Fv Hv H1 H2 s r.
-assert (H := variance_roundtrip (bpow radix2 (-53)) 0 v d1 d2 0 Hv (bpow_ge_0 _ _) H1 H2).
+assert (Hu1 : 0 <= bpow radix2 (-53) <= 1).
+{ split. apply bpow_ge_0. rewrite two_pow_53. lra. }
+assert (H := variance_roundtrip (bpow radix2 (-53)) 0 v d1 d2 0 Hv Hu1 H1 H2).
 rewrite Rabs_R0 in H. specialize (H (Rle_refl 0)). simpl in H.
 rewrite Rplus_0_r in H. fold s in H. fold r in H. rewrite Rplus_0_r in H.
 assert (Hu := ulp_FLT_gt radix2 (-1074) 53 v). fold fexp64 in Hu.
@@ -194,5 +197,5 @@ set (w := ulp radix2 fexp64 v) in *.
 nra.
 Qed.
 
-Example variance_roundtrip_sat : 0 <= 4 /\ 0 <= / 2 /\ Rabs 0 <= / 2.
+Example variance_roundtrip_sat : 0 <= 4 /\ 0 <= / 2 <= 1 /\ Rabs 0 <= / 2.
 Proof. rewrite Rabs_R0. lra. Qed.
